@@ -79,7 +79,9 @@ class Analyzer:
         for n in ctx.warn:
             if n not in self.notes:
                 self.notes.append(n)
-        return Result(entry, fn, config, ctx, val)
+        r = Result(entry, fn, config, ctx, val)
+        r.self_fields_declared = set(self_fields) if isinstance(self_fields, dict) else set()
+        return r
 
 
 class Obligation:
